@@ -15,6 +15,13 @@ Theorem C01_chain_alignment : forall ops d d', run_wf ops d d' -> aligned d d'.
 Proof. exact run_aligned. Qed.
 Print Assumptions C01_chain_alignment.
 
+(* ... stated directly on run_ops: the only side condition is computable - no label / position listed
+   twice and positional ranges in slice.indices normal form *)
+Theorem C01_chain_alignment_run_ops : forall ops d d',
+  wf d -> forallb op_ok ops = true -> run_ops ops d = Ok d' -> aligned d d' /\ wf d'.
+Proof. exact run_ops_aligned. Qed.
+Print Assumptions C01_chain_alignment_run_ops.
+
 Theorem C01_chain_is_run : forall ops d d', run_wf ops d d' -> run_ops ops d = Ok d'.
 Proof. exact run_wf_run. Qed.
 Print Assumptions C01_chain_is_run.
